@@ -418,36 +418,77 @@ type BackoffCase struct {
 	Multiplier float64
 	Jitter     float64
 	Attempt    uint
+	Later      []BackoffStep `json:",omitempty"`
+}
+
+// BackoffStep: new settings written into the same Config object (or into a copy of it taken at that
+// moment) after it has been used, and the attempt evaluated under them.
+type BackoffStep struct {
+	BaseNs     int64
+	MaxNs      int64
+	Multiplier float64
+	Jitter     float64
+	Attempt    uint
+	Copy       bool
 }
 
 func TestC17Backoff(t *testing.T) {
 	vh.Run(t, vh.Spec[BackoffCase]{Property: "C17", Name: "TestC17Backoff",
-		Rule: "back-off as a pure function: max <= 2^61 ns, base in [0, max] (weight on 0, 1, max), multiplier in [1, 10^6] (weight on 1, 1.0000001, 3), jitter in [0, 1] (weight on 0 and 1), attempt 0..2^32-1 with weight on 0, 1, 2, 646..650, 1023, 1024, 2^32-1. Oracle: 0 <= Backoff(n) <= max*(1+jitter) (+1 ns rounding), evaluated 3 times per case because the jitter is random. Non-trivial: attempt >= 1.",
+		Rule: "back-off as a pure function: max <= 2^61 ns, base in [0, max] (weight on 0, 1, max), multiplier in [1, 10^6] (weight on 1, 1.0000001, 3), jitter in [0, 1] (weight on 0 and 1), attempt 0..2^32-1 with weight on 0, 1, 2, 646..650, 1023, 1024, 2^32-1. Oracle: 0 <= Backoff(n) <= max*(1+jitter) (+1 ns rounding), evaluated 3 times per case because the jitter is random; in three fifths of the cases the same Config object (or a copy taken after use) then receives 1..3 further settings from the same domain and is judged under each - the bound is the one configured at the time of the call. Non-trivial: attempt >= 1.",
 		Gen: func(t *rapid.T) BackoffCase {
-			c := BackoffCase{}
-			c.MaxNs = rapid.OneOf(rapid.SampledFrom([]int64{0, 1, 15e9, 1 << 61}), rapid.Int64Range(0, 1<<61)).Draw(t, "max")
-			c.BaseNs = rapid.OneOf(rapid.SampledFrom([]int64{0, 0, 1, -1}), rapid.Int64Range(0, 1<<61)).Draw(t, "base")
-			if c.BaseNs < 0 || c.BaseNs > c.MaxNs {
-				c.BaseNs = c.MaxNs
+			c := genBackoffSettings(t, "")
+			// later settings of the same Config object (its fields are exported and plain: a caller may
+			// adjust them between calls), or of a copy taken after use
+			for i, n := 0, rapid.SampledFrom([]int{0, 0, 1, 2, 3}).Draw(t, "later"); i < n; i++ {
+				l := genBackoffSettings(t, fmt.Sprintf("later%d-", i))
+				c.Later = append(c.Later, BackoffStep{BaseNs: l.BaseNs, MaxNs: l.MaxNs, Multiplier: l.Multiplier, Jitter: l.Jitter, Attempt: l.Attempt, Copy: rapid.IntRange(0, 3).Draw(t, fmt.Sprintf("later%d-copy", i)) == 0})
 			}
-			c.Multiplier = rapid.OneOf(rapid.SampledFrom([]float64{1, 1.0000001, 1.5, 3, 10, 1e6}), rapid.Float64Range(1, 1e6)).Draw(t, "mult")
-			c.Jitter = rapid.OneOf(rapid.SampledFrom([]float64{0, 0.2, 1}), rapid.Float64Range(0, 1)).Draw(t, "jitter")
-			c.Attempt = uint(rapid.OneOf(rapid.SampledFrom([]uint64{0, 1, 2, 3, 10, 646, 647, 648, 650, 1023, 1024, 1 << 20, 1<<32 - 1}), rapid.Uint64Range(0, 1<<32-1)).Draw(t, "attempt"))
 			return c
 		},
 		Exec: func(c BackoffCase) (vh.Outcome, error) {
-			out := vh.Outcome{NonTrivial: c.Attempt >= 1, Classes: []string{fmt.Sprintf("base0=%v", c.BaseNs == 0), fmt.Sprintf("attempt>=647=%v", c.Attempt >= 647)}}
-			cfg := backoff.Config{BaseDelay: time.Duration(c.BaseNs), MaxDelay: time.Duration(c.MaxNs), Multiplier: c.Multiplier, Jitter: c.Jitter}
-			bound := float64(c.MaxNs) * (1 + c.Jitter)
-			for i := 0; i < 3; i++ {
-				var d time.Duration
-				if perr := vh.Catch(func() { d = cfg.Backoff(c.Attempt) }); perr != nil {
-					return out, vh.Errf("Backoff crashed: %v", perr)
+			out := vh.Outcome{NonTrivial: c.Attempt >= 1, Classes: []string{fmt.Sprintf("base0=%v", c.BaseNs == 0), fmt.Sprintf("attempt>=647=%v", c.Attempt >= 647), fmt.Sprintf("reconfigured=%d", len(c.Later))}}
+			cfg := &backoff.Config{BaseDelay: time.Duration(c.BaseNs), MaxDelay: time.Duration(c.MaxNs), Multiplier: c.Multiplier, Jitter: c.Jitter}
+			judge := func(cfg *backoff.Config, attempt uint, what string) error {
+				bound := float64(cfg.MaxDelay) * (1 + cfg.Jitter)
+				for i := 0; i < 3; i++ {
+					var d time.Duration
+					if perr := vh.Catch(func() { d = cfg.Backoff(attempt) }); perr != nil {
+						return vh.Errf("%sBackoff crashed: %v", what, perr)
+					}
+					if d < 0 || float64(d) > bound*(1+1e-12)+1 || math.IsNaN(float64(d)) {
+						return vh.Errf("%sBackoff(%d) = %d ns with base %d ns, max %d ns, multiplier %v, jitter %v: outside [0, %v]", what, attempt, int64(d), int64(cfg.BaseDelay), int64(cfg.MaxDelay), cfg.Multiplier, cfg.Jitter, bound)
+					}
 				}
-				if d < 0 || float64(d) > bound*(1+1e-12)+1 || math.IsNaN(float64(d)) {
-					return out, vh.Errf("Backoff(%d) = %d ns with base %d ns, max %d ns, multiplier %v, jitter %v: outside [0, %v]", c.Attempt, int64(d), c.BaseNs, c.MaxNs, c.Multiplier, c.Jitter, bound)
+				return nil
+			}
+			if err := judge(cfg, c.Attempt, ""); err != nil {
+				return out, err
+			}
+			for i, l := range c.Later {
+				what := fmt.Sprintf("after %d earlier setting(s) of the same Config object (first: base %d ns, max %d ns, multiplier %v, jitter %v, attempt %d): ", i+1, c.BaseNs, c.MaxNs, c.Multiplier, c.Jitter, c.Attempt)
+				if l.Copy {
+					cp := *cfg
+					cfg = &cp
+					what = "on a copy taken " + what
+				}
+				cfg.BaseDelay, cfg.MaxDelay, cfg.Multiplier, cfg.Jitter = time.Duration(l.BaseNs), time.Duration(l.MaxNs), l.Multiplier, l.Jitter
+				if err := judge(cfg, l.Attempt, what); err != nil {
+					return out, err
 				}
 			}
 			return out, nil
 		}})
+}
+
+func genBackoffSettings(t *rapid.T, l string) BackoffCase {
+	c := BackoffCase{}
+	c.MaxNs = rapid.OneOf(rapid.SampledFrom([]int64{0, 1, 50e6, 15e9, 1 << 61}), rapid.Int64Range(0, 1<<61)).Draw(t, l+"max")
+	c.BaseNs = rapid.OneOf(rapid.SampledFrom([]int64{0, 0, 1, -1}), rapid.Int64Range(0, 1<<61)).Draw(t, l+"base")
+	if c.BaseNs < 0 || c.BaseNs > c.MaxNs {
+		c.BaseNs = c.MaxNs
+	}
+	c.Multiplier = rapid.OneOf(rapid.SampledFrom([]float64{1, 1.0000001, 1.5, 3, 10, 1e6}), rapid.Float64Range(1, 1e6)).Draw(t, l+"mult")
+	c.Jitter = rapid.OneOf(rapid.SampledFrom([]float64{0, 0.2, 1}), rapid.Float64Range(0, 1)).Draw(t, l+"jitter")
+	c.Attempt = uint(rapid.OneOf(rapid.SampledFrom([]uint64{0, 1, 2, 3, 10, 646, 647, 648, 650, 1023, 1024, 1 << 20, 1<<32 - 1}), rapid.Uint64Range(0, 1<<32-1)).Draw(t, l+"attempt"))
+	return c
 }
